@@ -99,6 +99,37 @@ namespace {
                           vf::JObj{}.str("pass", "C02").str("row", e.row).raw("ops", vf::jarr(std::vector<long long>{ rot, 3 })).done());
       }
    }
+
+   // Spellings handed over in a buffer the caller refills in place (a scanner's token buffer): every node reports the
+   // characters the buffer held at the call.  All ordered pairs and triples of equal-length words x 3 factories.
+   void reused_buffer()
+   {
+      static const char8_t* const words[] = { u8"alpha", u8"gamma", u8"omega", u8"delta", u8"while", u8"short", u8"al\0ha" };
+      constexpr int NW = 7, LEN = 5;
+      auto text = [](ipr::util::word_view v) { return std::string(reinterpret_cast<const char*>(v.data()), v.size()); };
+      for (int f = 0; f < 3; ++f)
+         for (int a = 0; a < NW; ++a) for (int b = 0; b < NW; ++b) for (int c = 0; c < NW; ++c) {
+            ipr::impl::Lexicon lex;
+            char8_t buf[LEN];
+            std::vector<std::pair<int, const ipr::String*>> got;
+            for (int w : { a, b, c }) {
+               for (int i = 0; i < LEN; ++i) buf[i] = words[w][i];
+               ipr::util::word_view v{ buf, LEN };
+               const ipr::String* s = f == 0 ? &lex.get_string(v) : f == 1 ? &lex.get_identifier(v).string() : &static_cast<const ipr::Literal&>(*lex.make_literal(lex.int_type(), v)).string();
+               got.emplace_back(w, s);
+            }
+            rep.count("transitions", 3);
+            rep.count("traces");
+            for (auto& [w, s] : got)
+               if (text(s->characters()) != std::string(reinterpret_cast<const char*>(words[w]), LEN)) {
+                  const char* fam = f == 0 ? "get_string" : f == 1 ? "get_identifier" : "make_literal";
+                  rep.violation(std::string("C02:") + fam + ":spelling-from-a-reused-buffer", f * 1000 + a * 100 + b * 10 + c,
+                                std::string(fam) + " was given a buffer holding '" + std::string(reinterpret_cast<const char*>(words[w]), LEN) + "' and the node reports '" + text(s->characters()) + "' [words " + std::to_string(a) + "," + std::to_string(b) + "," + std::to_string(c) + " through one buffer refilled in place]",
+                                vf::JObj{}.str("pass", "C02").str("row", "reused-buffer").raw("ops", vf::jarr(std::vector<long long>{ 0, 0, f, a, b, c })).done());
+                  break;
+               }
+         }
+   }
 }
 
 int main(int argc, char** argv)
@@ -112,6 +143,7 @@ int main(int argc, char** argv)
       int rot = ops.empty() ? 0 : int(ops[0]);
       std::printf("replay C02: operand rotation %d, all six histories\n", rot);
       for (int h = 0; h < 6; ++h) sweep(rot, h);
+      reused_buffer();
       for (auto& [k, v] : rep.viols) std::printf("violated: %s  (%s)\n", k.c_str(), v.what.c_str());
       return rep.viols.empty() ? 0 : 1;
    }
@@ -119,6 +151,7 @@ int main(int argc, char** argv)
    for (int rot = 0; rot < 12; ++rot)
       for (int h = 0; h < 6; ++h)
          if (opt.mine(job++)) sweep(rot, h);
+   if (opt.shard == 1 % opt.shards) reused_buffer();
    if (opt.shard == 0) {
       rep.info("space", vf::JObj{}.num("factory_rows", (long long) zoo::rows().size()).num("operand_rotations", 12).num("histories", 6).done());
       rep.sample(vf::JObj{}.str("row", "make_conditional").str("checked", "condition/then_expr/else_expr == the three distinct operands given, in order; first/second/third likewise; type absent or given; implementation absent").done());
